@@ -21,6 +21,23 @@
 (*                                                                         *)
 (* Dev names a deviation of the intended design (DESIGN 2.7); "none" in    *)
 (* the deciding configurations.                                            *)
+(*                                                                         *)
+(* FRAME MACHINE (second INIT / NEXT pair FInit / FNext; frame_quick.cfg). *)
+(* Every operation of a sample set is a function of its receiver and its   *)
+(* arguments and alters neither.  State: a heap  fo  of sample-set objects *)
+(* (the position in the sequence is the object's identity), the caller's   *)
+(* ONE list of chains  fl  (a sequence of identities) that is passed to    *)
+(* every R-hat call.  Library actions on a receiver r:                     *)
+(*   FStat(r)  mean / median / variance / std / ci / ci_width              *)
+(*   FEss(r)   compute_ess        FToArviz(r, sel)  to_arviz_inferencedata *)
+(*   FRhat(r, mode)   compute_rhat(fl)  or  compute_rhat(fl[1]) (single)   *)
+(*   FBurnthin(r, b, t)  FConv(r, kind)   results are NEW heap objects     *)
+(* and one action of the caller, FThinList(b, t): every element of the     *)
+(* list is replaced by its burnthin (lst[k] = lst[k].burnthin(b, t)).      *)
+(* Frame: a library action never alters an existing object nor the list;   *)
+(* RhatFunctional: the chains entering R-hat are <<receiver>> \o list as   *)
+(* the CALLER last set it (ghost fl0).  The state has no history, so the   *)
+(* reachable graph contains every sequence of calls of any length.         *)
 (***************************************************************************)
 EXTENDS Mat, FiniteSets, Json
 
@@ -33,7 +50,12 @@ CONSTANTS Ns,        \* chain lengths of the source
           Percents,  \* credibility levels (integers 0..100)
           NChains,   \* number of additional chains handed to R-hat
           Dev,       \* "none" | "offbyone" | "boundary" | "dropflag" | "inplace" | "lexorder" | "jointnothin"
-          Emit
+                     \*  frame machine: "rhatinsertsself" | "convinplace"
+          Emit,
+          FrameNs,     \* frame machine: chain lengths
+          FrameGeoms,  \* frame machine: geometry kinds
+          FrameLists,  \* frame machine: which of the caller's lists FList(k)
+          MaxDerived   \* frame machine: number of results of library calls kept on the heap
 
 VARIABLES c,      \* configuration [N, g, joint]
           obj,    \* the current sample set
@@ -41,6 +63,15 @@ VARIABLES c,      \* configuration [N, g, joint]
           src,    \* what the SOURCE object holds now (ghost; the source is never the result of an action)
           sel     \* ghost: [off, stride] closed form of the composed selection
 vars == <<c, obj, obj2, src, sel>>
+
+\* frame machine (constant in the behaviours of Init / Next)
+VARIABLES fc,     \* configuration [N, g, lst]
+          fo,     \* heap: sequence of objects [ch, cols, par, vec, geom]; ch = which stored chain the columns index
+          fl,     \* the caller's list of chains (identities = positions in fo), as it is NOW
+          fl0,    \* ghost: the list as the CALLER last set it
+          fthin   \* the caller has replaced the elements of the list by their burnthin
+fvars == <<fc, fo, fl, fl0, fthin>>
+allvars == <<c, obj, obj2, src, sel, fc, fo, fl, fl0, fthin>>
 
 NoObj == [cols |-> <<>>, par |-> TRUE, vec |-> TRUE, geom |-> "none"]
 
@@ -171,23 +202,33 @@ BurnthinCore(b, t) ==
             /\ UNCHANGED <<c, obj2>>
 Burnthin(b, t) == BurnthinCore(b, t) /\ EmitEdge("burnthin", b, t, Refuses(obj, b), obj', obj2')
 
+\* the conversion properties (flag automaton of C13 on the fixed geometries of this spec), shared by both machines:
+\* ConvSame - the object itself is the result;  ConvRes - the result;  ConvDefined - the library implements the conversion
+ConvSame(o, kind) == CASE kind = "funvals"    -> ~o.par /\ ~o.vec
+                       [] kind = "vector"     -> o.vec \/ o.par
+                       [] kind = "parameters" -> o.par
+ConvRes(o, kind) == IF ConvSame(o, kind) THEN o
+                    ELSE CASE kind = "funvals"    -> [o EXCEPT !.par = FALSE, !.vec = FunIs1D(o.geom)]
+                           [] kind = "vector"     -> [o EXCEPT !.vec = TRUE]
+                           [] kind = "parameters" -> [o EXCEPT !.par = TRUE, !.vec = TRUE]
+ConvDefined(o, kind) == kind = "vector" => (o.vec \/ o.par \/ HasVec(o.geom))
+
 FunvalsCore ==
     /\ ~c.joint
-    /\ obj' = IF ~obj.par /\ ~obj.vec THEN obj
-              ELSE [obj EXCEPT !.par = FALSE, !.vec = FunIs1D(obj.geom)]
+    /\ obj' = ConvRes(obj, "funvals")
     /\ UNCHANGED <<c, obj2, src, sel>>
 Funvals == FunvalsCore /\ EmitEdge("funvals", 0, 1, FALSE, obj', obj2')
 
 VectorCore ==
     /\ ~c.joint
-    /\ (obj.vec \/ obj.par \/ HasVec(obj.geom))
-    /\ obj' = IF obj.vec \/ obj.par THEN obj ELSE [obj EXCEPT !.vec = TRUE]
+    /\ ConvDefined(obj, "vector")
+    /\ obj' = ConvRes(obj, "vector")
     /\ UNCHANGED <<c, obj2, src, sel>>
 Vector == VectorCore /\ EmitEdge("vector", 0, 1, FALSE, obj', obj2')
 
 ParametersCore ==
     /\ ~c.joint
-    /\ obj' = IF obj.par THEN obj ELSE [obj EXCEPT !.par = TRUE, !.vec = TRUE]
+    /\ obj' = ConvRes(obj, "parameters")
     /\ UNCHANGED <<c, obj2, src, sel>>
 Parameters == ParametersCore /\ EmitEdge("parameters", 0, 1, FALSE, obj', obj2')
 
@@ -214,15 +255,20 @@ Configs == {[N |-> n, g |-> g, joint |-> FALSE] : n \in Ns, g \in Geoms \ {"wide
            \cup {[N |-> n, g |-> "wide", joint |-> FALSE] : n \in (IF "wide" \in Geoms THEN WideNs ELSE {})}
            \cup {[N |-> n, g |-> "c1d3", joint |-> TRUE] : n \in JointNs}
 
+NoFC == [N |-> 0, g |-> "none", lst |-> 0]
+FrameOff == fc = NoFC /\ fo = <<>> /\ fl = <<>> /\ fl0 = <<>> /\ fthin = FALSE
+
 Init == /\ c \in Configs
         /\ obj = Source(c) /\ obj2 = Source2(c) /\ src = Source(c)
         /\ sel = [off |-> 0, stride |-> 1]
+        /\ FrameOff
 
-Next == \/ \E b \in Bs, t \in Ts : Burnthin(b, t)
-        \/ Funvals \/ Vector \/ Parameters
-        \/ \E b \in Bs, t \in Ts : JointBurnthin(b, t)
+Next == /\ \/ \E b \in Bs, t \in Ts : Burnthin(b, t)
+           \/ Funvals \/ Vector \/ Parameters
+           \/ \E b \in Bs, t \in Ts : JointBurnthin(b, t)
+        /\ UNCHANGED fvars
 
-Spec == Init /\ [][Next]_vars
+Spec == Init /\ [][Next]_allvars
 
 \* ---- properties ----------------------------------------------------------------------
 \* exactly the stored samples off, off + stride, ... (all of them below n), in order
@@ -281,4 +327,136 @@ Node ==
        /\ (Emit => PrintT("@@CASE " \o ToJson([kind |-> "node", c |-> c, obj |-> obj, obj2 |-> obj2, stats |-> S,
                                                stats2 |-> IF c.joint /\ obj2.cols # <<>> THEN AllStats(obj2) ELSE <<>>,
                                                arviz |-> ArvizRec(obj)]) \o " @@END"))
+
+\* ==================================================================================================
+\* FRAME MACHINE: operations are functions of <<receiver, arguments>> and alter neither
+\* ==================================================================================================
+NBase == 4                               \* stored chains 0..3: object k holds chain k - 1; chain 0 is "self"
+\* the caller's lists (cfg files cannot hold sequences)
+FList(k) == CASE k = 1 -> <<2>>       [] k = 2 -> <<2, 3>>    [] k = 3 -> <<3, 2, 4>>
+              [] k = 4 -> <<2, 3, 4>> [] k = 5 -> <<4, 2>>    [] OTHER -> <<3>>
+\* burn-in / thinning pairs used on receivers (the last one is refused) and by the caller on the list
+FBT(n)  == {<<0, 2>>, <<2, 1>>, <<n, 1>>}
+FBTList == {<<0, 2>>, <<2, 1>>}
+\* index argument of to_arviz_inferencedata (0-based variable indices, not sorted)
+FIdx == <<2, 0>>
+
+\* values stored by an object of the frame machine: chain 0 holds the values of the main machine, chain j > 0 is
+\* shifted column by column (only chain 0 objects are ever converted, so the shift commutes with nothing it should not)
+FRow(o, pos) == LET xs == Row(o, pos)
+                IN IF o.ch = 0 THEN xs ELSE F([k \in 1..Len(xs) |-> ChainVal(o.ch, xs[k], o.cols[k])])
+FRows(o) == LET C == Coords(o) IN F([q \in 1..Len(C) |-> [pos |-> C[q], vals |-> FRow(o, C[q])]])
+
+Recvs == {i \in DOMAIN fo : fo[i].ch = 0}                      \* receivers: "self" and everything derived from it
+Room  == Cardinality(Recvs) - 1 < MaxDerived
+Store(o) == IF Room THEN Append(fo, o) ELSE fo                 \* beyond the bound the result is compared and dropped
+LastRecv == CHOOSE i \in Recvs : \A j \in Recvs : j <= i
+
+EssDefined(o) == ArvizDefined(o) /\ Len(o.cols) >= 4           \* arviz needs four draws
+SameRep(a, b) == a.par = b.par /\ a.vec = b.vec /\ a.geom = b.geom /\ Len(a.cols) = Len(b.cols)
+\* the argument of compute_rhat: the caller's list, or its first element passed as a single Samples object
+RhatArg(mode, l) == IF mode = "single" THEN <<l[1]>> ELSE l
+RhatDefined(r, l) == EssDefined(fo[r]) /\ \A k \in DOMAIN l : SameRep(fo[r], fo[l[k]])
+\* deviation RhatInsertsSelf: the implementation builds "all chains" by inserting the receiver into the caller's list
+ListAfterRhat(r, mode) == IF Dev = "rhatinsertsself" /\ mode = "list" THEN <<r>> \o fl ELSE fl
+\* the chains that enter the computation, in order
+RhatChains(r, mode) == IF Dev = "rhatinsertsself" /\ mode = "list" THEN ListAfterRhat(r, mode)
+                       ELSE <<r>> \o RhatArg(mode, fl)
+
+FEmit(name, r, b, t, arg, res, app, l2) ==
+    Emit => PrintT("@@CASE " \o ToJson([kind |-> "fedge", c |-> fc, pre |-> [fo |-> fo, fl |-> fl],
+                       op |-> [name |-> name, r |-> r, b |-> b, t |-> t, arg |-> arg], res |-> res,
+                       post |-> [app |-> app, fl |-> l2]]) \o " @@END")
+
+FPure(name, r, arg, res) == /\ r \in Recvs
+                            /\ UNCHANGED fvars
+                            /\ FEmit(name, r, 0, 1, arg, res, <<>>, fl)
+
+FStat(r) == FPure("stat", r, "", [defined |-> TRUE, obj |-> fo[r]])
+FEss(r)  == FPure("ess", r, "", [defined |-> EssDefined(fo[r]), obj |-> fo[r]])
+\* name -> row mapping returned by to_arviz_inferencedata(None) / (FIdx)
+FItems(o, which) == LET H == HandOver(o)
+                     IN IF which = "all" THEN H ELSE [k \in 1..Len(FIdx) |-> H[FIdx[k] + 1]]
+FToArviz(r, which) == FPure("toarviz", r, which,
+                          [defined |-> ArvizDefined(fo[r]) /\ Dim(fo[r]) >= 3, obj |-> fo[r],
+                           items |-> IF ArvizDefined(fo[r]) /\ Dim(fo[r]) >= 3 THEN FItems(fo[r], which) ELSE <<>>])
+
+FRhat(r, mode) ==
+    /\ r \in Recvs
+    /\ fl' = ListAfterRhat(r, mode)
+    /\ UNCHANGED <<fc, fo, fl0, fthin>>
+    /\ FEmit("rhat", r, 0, 1, mode, [defined |-> RhatDefined(r, RhatArg(mode, fl)), chains |-> RhatChains(r, mode)], <<>>, fl')
+
+FBurnthin(r, b, t) ==
+    /\ r \in Recvs
+    /\ LET err == Refuses(fo[r], b)
+           new == IF err THEN fo[r] ELSE Thinned(fo[r], b, t)
+       IN /\ fo' = IF err THEN fo ELSE Store(new)
+          /\ UNCHANGED <<fc, fl, fl0, fthin>>
+          /\ FEmit("burnthin", r, b, t, "", [err |-> err, new |-> new],
+                   IF err \/ ~Room THEN <<>> ELSE <<new>>, fl)
+
+FConv(r, kind) ==
+    /\ r \in Recvs
+    /\ ConvDefined(fo[r], kind)
+    /\ LET o    == fo[r]
+           same == ConvSame(o, kind)
+           new  == ConvRes(o, kind)
+       IN /\ fo' = IF Dev = "convinplace" THEN [fo EXCEPT ![r] = new]       \* deviation: converts the receiver itself
+                   ELSE IF same THEN fo ELSE Store(new)
+          /\ UNCHANGED <<fc, fl, fl0, fthin>>
+          /\ FEmit("conv", r, 0, 1, kind, [same |-> same, new |-> new],
+                   IF same \/ ~Room \/ Dev = "convinplace" THEN <<>> ELSE <<new>>, fl)
+
+\* the CALLER replaces every element of its list:  for k: lst[k] = lst[k].burnthin(b, t)   (at most once)
+FThinList(b, t) ==
+    /\ ~fthin
+    /\ \A k \in DOMAIN fl : ~Refuses(fo[fl[k]], b)
+    /\ LET news == F([k \in 1..Len(fl) |-> Thinned(fo[fl[k]], b, t)])
+       IN /\ fo' = fo \o news
+          /\ fl' = [k \in 1..Len(fl) |-> Len(fo) + k]
+          /\ fl0' = fl'
+          /\ fthin' = TRUE
+          /\ UNCHANGED fc
+          /\ FEmit("thinlist", 0, b, t, "", [new |-> news], news, fl')
+
+FConfigs == {[N |-> n, g |-> g, lst |-> k] : n \in FrameNs, g \in FrameGeoms, k \in FrameLists}
+FBase(k) == [i \in 1..NBase |-> [ch |-> i - 1, cols |-> [m \in 1..k.N |-> m - 1], par |-> TRUE, vec |-> TRUE, geom |-> k.g]]
+NoC == [N |-> 0, g |-> "none", joint |-> FALSE]
+
+FInit == /\ fc \in FConfigs
+         /\ fo = FBase(fc) /\ fl = FList(fc.lst) /\ fl0 = FList(fc.lst) /\ fthin = FALSE
+         /\ c = NoC /\ obj = NoObj /\ obj2 = NoObj /\ src = NoObj /\ sel = [off |-> 0, stride |-> 1]
+
+FNext == /\ \/ \E r \in DOMAIN fo : \/ FStat(r) \/ FEss(r)
+                                    \/ \E s \in {"all", "idx"} : FToArviz(r, s)
+                                    \/ \E m \in {"list", "single"} : FRhat(r, m)
+                                    \/ \E bt \in FBT(fc.N) : FBurnthin(r, bt[1], bt[2])
+                                    \/ \E k \in {"funvals", "vector", "parameters"} : FConv(r, k)
+            \/ \E bt \in FBTList : FThinList(bt[1], bt[2])
+         /\ UNCHANGED vars
+
+\* bound for the deviation runs (the list grows with every call)
+FBound == Len(fl) <= 6
+
+\* ---- frame properties --------------------------------------------------------------------------
+\* no step alters an object that exists (receiver, list elements, any other); only the caller's own step alters the list
+FrameStep == /\ Len(fo') >= Len(fo)
+             /\ \A i \in DOMAIN fo : fo'[i] = fo[i]
+             /\ (fl' # fl \/ fl0' # fl0) => (~fthin /\ fthin')
+Frame == [][FrameStep]_fvars
+\* whatever was called before: the chains entering R-hat are the receiver followed by the caller's list (its first
+\* element for a single Samples argument), in the caller's order
+RhatFunctional == \A r \in Recvs : \A m \in {"list", "single"} : RhatChains(r, m) = <<r>> \o RhatArg(m, fl0)
+\* burnthin / conversions on the heap obey the same laws as in the main machine
+FHeapLegal == \A i \in DOMAIN fo : /\ fo[i].cols # <<>> /\ (fo[i].par => fo[i].vec) /\ fo[i].geom = fc.g
+                                   /\ (fo[i].ch # 0 => fo[i].par)
+              /\ \A k \in DOMAIN fl : fl[k] \in DOMAIN fo /\ fo[fl[k]].ch # 0
+
+\* evaluated once per distinct state: emits the exact rows of every object and the exact statistics of the newest receiver
+FNode ==
+    fo # <<>> =>
+    (Emit => PrintT("@@CASE " \o ToJson([kind |-> "fnode", c |-> fc, fo |-> fo, fl |-> fl,
+                                         rows |-> F([i \in 1..Len(fo) |-> FRows(fo[i])]),
+                                         statsof |-> LastRecv, stats |-> AllStats(fo[LastRecv])]) \o " @@END"))
 =============================================================================
